@@ -9,14 +9,17 @@ import (
 	"go/format"
 	"go/parser"
 	"go/token"
+	"io"
+	"os"
 	"strings"
+	"sync"
 
 	"github.com/dave/dst"
 	"github.com/dave/dst/decorator"
 )
 
 // NumEntries is the number of decorate+print entry points RoundTrip knows.
-const NumEntries = 9
+const NumEntries = 10
 
 // EntryName names an entry point.
 func EntryName(e int) string {
@@ -28,6 +31,7 @@ func EntryName(e int) string {
 		"shared Restorer (second file)+Restorer.Fprint",
 		"FileRestorer{Name}+Fprint",
 		"Decorator.Parse+Restorer with caller Fset",
+		"Parse+Print helpers writing to os.Stdout (decorator.Print / Restorer.Print / FileRestorer.Print)",
 	}[e]
 }
 
@@ -194,6 +198,24 @@ func RoundTrip(src []byte, e, pre, mode int) ([]byte, error) {
 		if err := format.Node(&buf, fset, out); err != nil {
 			return nil, err
 		}
+	case 9:
+		f, err := decorator.Parse(src)
+		if err != nil {
+			return nil, err
+		}
+		out, err := captureStdout(func() error {
+			switch mode % 3 {
+			case 0:
+				return decorator.Print(f)
+			case 1:
+				return decorator.NewRestorer().Print(f)
+			}
+			return decorator.NewRestorer().FileRestorer().Print(f)
+		})
+		if err != nil {
+			return nil, err
+		}
+		buf.Write(out)
 	default:
 		return nil, fmt.Errorf("unknown entry %d", e)
 	}
@@ -228,4 +250,34 @@ func NodeKinds(fset *token.FileSet, f *ast.File, src []byte) (kinds int, innerDe
 		}
 	}
 	return len(seen), innerDecoration
+}
+
+var stdoutMu sync.Mutex
+
+// captureStdout runs f with os.Stdout redirected into a pipe and returns what f wrote there.
+func captureStdout(f func() error) ([]byte, error) {
+	stdoutMu.Lock()
+	defer stdoutMu.Unlock()
+	r, w, err := os.Pipe()
+	if err != nil {
+		return nil, err
+	}
+	old := os.Stdout
+	os.Stdout = w
+	done := make(chan []byte, 1)
+	go func() {
+		b, _ := io.ReadAll(r)
+		done <- b
+	}()
+	var ferr error
+	func() {
+		defer func() {
+			os.Stdout = old
+			w.Close()
+		}()
+		ferr = f()
+	}()
+	out := <-done
+	r.Close()
+	return out, ferr
 }
